@@ -36,6 +36,9 @@ func runC04(c *Ctx) {
 	scannerVerdictRule(c, "R7")
 	c04WaitingPaths(c)
 	c04IncludeExclude(c)
+	// shared rule: a skipped file gets its pointer text back (rules_round4.go)
+	smudgeToFileRule(c, "R9")
+	pathspecSeparatorRule(c, "R10")
 	run := p.Fn("commands", "(*singleCheckout).Run")
 	if run == nil {
 		c.Missing("R1", "(*singleCheckout).Run", "not found")
